@@ -7,6 +7,7 @@ from fractions import Fraction as F
 import numpy as np
 
 import pymbolic.primitives as p
+from immutabledict import immutabledict
 from pymbolic.mapper import UnsupportedExpressionError
 from pymbolic.mapper.analysis import NodeCountMapper, get_num_nodes
 from pymbolic.mapper.dependency import CachedDependencyMapper, DependencyMapper
@@ -19,6 +20,7 @@ import pymbolic.mapper as mapmod
 
 from ..core import check, short
 from ..gen import expr as G
+from ..gen import scale
 from ..mon.trace import HandlerTrace
 from ..ref import normal, refsem
 from ..ref.children import children, occurrences
@@ -367,8 +369,34 @@ def workload(ctx):
             if i < 2:
                 ctx.sample("counts", G.src(e))
             ctx.run("C09.counts", e)
+        # scale: expressions of 1200 .. 8000 (thorough 36000) distinct nodes, wide nodes
+        from .c05 import big_expression
+        for n in ([400, 700, 2600] if not ctx.thorough else [400, 700, 1500, 2600, 12000]):
+            if ctx.mine("big"):
+                e = big_expression(n, rng)
+                ctx.case(("big", n), True, n=0)
+                ctx.count("big_expressions")
+                ctx.run("C09.counts", e)
+                ctx.run("C09.deps", (e, rng.sample(FLAGS, 4)))
+        for w in scale.WIDTHS:
+            if not ctx.mine("wide"):
+                continue
+            vs = scale.variables(w)
+            for mk in (p.Sum, p.Product, p.Max, p.LogicalOr, lambda t: p.Call(p.Variable("f"), t),
+                       lambda t: p.Subscript(p.Variable("a"), t),
+                       lambda t: p.CallWithKwargs(p.Variable("f"), t[:2],
+                                                  immutabledict({f"k{i}": v for i, v in enumerate(t)}))):
+                kids = tuple(rng.choice([v, p.Sum((v, 1)), p.Subscript(v, 0), p.Lookup(v, "w"),
+                                         p.Call(v, (p.Variable("q"),)), 3]) for v in vs)
+                e = mk(kids)
+                ctx.case(("wide", normal.typed_key(e)), True, n=0)
+                ctx.count("wide_nodes")
+                ctx.run("C09.deps", (e, rng.sample(FLAGS, 6)))
+                ctx.run("C09.counts", e)
         for k, v in tr.handlers().items():
             ctx.count("handler:" + k, v)
+    ctx.floor("wide_nodes", 150)
+    ctx.floor("big_expressions", 3)
     ctx.floor("dep_calls", 72 * 2 * 500)
     ctx.floor("history_calls", 3000)
     ctx.floor("restricted_evals", 2000)
